@@ -1,6 +1,7 @@
 package main
 
 import (
+	ssapkg "golang.org/x/tools/go/ssa"
 	"flag"
 	"fmt"
 	"os"
@@ -44,6 +45,8 @@ func main() {
 		cmdVC(os.Args[2:])
 	case "check":
 		cmdCheck(os.Args[2:])
+	case "callees":
+		cmdCallees()
 	case "list":
 		g, err := loadAll(env("REPO", "/repo"))
 		if err != nil {
@@ -142,3 +145,45 @@ func cmdVC(args []string) {
 	fmt.Printf("TOTAL %d/%d discharged\n", ok, tot)
 }
 
+
+func cmdCallees() {
+	g, err := loadAll(env("REPO", "/repo"))
+	if err != nil {
+		fmt.Println(err)
+		os.Exit(2)
+	}
+	cnt := map[string]int{}
+	for _, n := range g.sortedFuncNames() {
+		fn := g.funcs[n]
+		c := g.newCtx(fn)
+		for _, b := range fn.Blocks {
+			for _, ins := range b.Instrs {
+				if ci, ok := ins.(interface{ Common() *ssapkg.CallCommon }); ok {
+					cc := ci.Common()
+					info := c.resolveCallee(cc)
+					if info.builtin != "" {
+						continue
+					}
+					tag := "repo"
+					if info.external {
+						tag = "ext"
+					}
+					if g.specs.Funcs[info.name] != nil {
+						tag += "+spec"
+					} else if info.external && g.specs.PurePkgs[info.pkgName] {
+						tag += "+purepkg"
+					}
+					cnt[tag+" "+info.name]++
+				}
+			}
+		}
+	}
+	var ks []string
+	for k := range cnt {
+		ks = append(ks, k)
+	}
+	sortStrings(ks)
+	for _, k := range ks {
+		fmt.Printf("%4d %s\n", cnt[k], k)
+	}
+}
